@@ -18,8 +18,9 @@ use rnacos::naming::cluster::model::{NamingRouteAddr, ProcessRange};
 use rnacos::naming::cluster::node_manage::{
     InnerNodeManage, NodeManage, NodeManageRequest, NodeManageResponse, NodeStatus,
 };
-use rnacos::naming::core::NamingActor;
-use rnacos::naming::model::ServiceKey;
+use rnacos::naming::cluster::route::NamingRoute;
+use rnacos::naming::core::{NamingActor, NamingCmd, NamingResult};
+use rnacos::naming::model::{Instance, ServiceKey};
 use rnacos::naming::verif_hooks::VerifNamingProbe;
 use rnacos::raft::network::factory::{RaftClusterRequestSender, RaftConnectionFactory};
 use serde_json::{json, Value};
@@ -49,6 +50,7 @@ struct View {
     inner: Addr<InnerNodeManage>,
     nm: Arc<NodeManage>,
     naming: Addr<NamingActor>,
+    route: NamingRoute,
     /// set once the view's statuses were seen to equal the wanted dead set
     settled_at: Option<Instant>,
     /// description of what was done to this view before the current phase
@@ -87,6 +89,7 @@ async fn make_view(family: &'static str, ids: &[u64], dead: &BTreeSet<u64>, loca
     factory.register(BeanDefinition::actor_with_inject_from_obj(inner.clone()));
     let nm = Arc::new(NodeManage::new(inner.clone()));
     factory.register(BeanDefinition::from_obj(nm.clone()));
+    let route = NamingRoute::new(local, naming.clone(), nm.clone(), sender.clone());
     let _data = factory.init().await;
     let nodes: Vec<(u64, Arc<String>)> = ids.iter().map(|i| (*i, Arc::new(addr_of(*i)))).collect();
     inner
@@ -101,6 +104,7 @@ async fn make_view(family: &'static str, ids: &[u64], dead: &BTreeSet<u64>, loca
         inner,
         nm,
         naming,
+        route,
         settled_at: None,
         history: vec![],
     })
@@ -381,6 +385,179 @@ fn make_keys(seed: u64) -> Vec<(ServiceKey, usize)> {
     keys
 }
 
+/// what a single view must satisfy whatever its history: the NamingActor works with the node manager's range, and the node
+/// routes a key to itself exactly when it considers itself the owner
+fn judge_local(phase: &str, how: &str, v: &View, o: &Obs, keys: &[(ServiceKey, usize)], rep: &mut Report) -> bool {
+    let mut ok = true;
+    rep.count("naming_range_compared", 1);
+    match o.snap.naming_range {
+        Some((i, l)) if (i, l) == (o.snap.range.index, o.snap.range.len) => {}
+        None if v.n() == 1 => {}
+        other => {
+            ok = false;
+            rep.violation(
+                format!("naming-actor-range-differs-from-node-manage-range/{}", how),
+                json!({"phase": phase, "family": v.family, "node_ids": v.ids, "dead": v.dead(), "local": v.local, "history": v.history,
+                       "node_manage_current_range": [o.snap.range.index, o.snap.range.len], "naming_actor_current_range": other.map(|(i, l)| vec![i, l])}),
+            );
+        }
+    }
+    for k in 0..keys.len() {
+        rep.evaluations += 1;
+        if o.owns[k] != (o.route[k] == v.local) {
+            ok = false;
+            rep.violation(
+                format!("route-differs-from-owner/{}", how),
+                json!({"phase": phase, "family": v.family, "node_ids": v.ids, "dead": v.dead(), "local": v.local, "history": v.history,
+                       "key_hash_mod_60": keys[k].1 % LCM, "owns_key": o.owns[k], "route_addr": o.route_raw[k], "route_target_node": o.route[k],
+                       "current_range": [o.snap.range.index, o.snap.range.len]}),
+            );
+            break;
+        }
+    }
+    ok
+}
+
+fn compare_with_fresh(
+    phase: &str,
+    how: &str,
+    v: &View,
+    o: &Obs,
+    keys: &[(ServiceKey, usize)],
+    fresh: &BTreeMap<(String, usize, Vec<u64>), Vec<Vec<(bool, u64)>>>,
+    rep: &mut Report,
+) {
+    let g = v.group_key();
+    if let Some(ft) = fresh.get(&g) {
+        let alive: Vec<u64> = v.ids.iter().copied().filter(|x| !v.dead().contains(x)).collect();
+        let pos = match alive.iter().position(|x| *x == v.local) {
+            Some(p) => p,
+            None => return,
+        };
+        rep.count(&format!("{}_views_compared_with_fresh_view", phase), 1);
+        for k in 0..keys.len() {
+            rep.evaluations += 1;
+            if ft[k].get(pos) != Some(&(o.owns[k], o.route[k])) {
+                rep.violation(
+                    format!("ownership-or-route-depends-on-history/{}", how),
+                    json!({"phase": phase, "family": v.family, "node_ids": v.ids, "local": v.local, "dead_now": v.dead(), "history": v.history,
+                           "key_hash_mod_60": keys[k].1 % LCM, "fresh_view": ft[k].get(pos).map(|x| json!({"owns": x.0, "route_target": x.1})),
+                           "now": {"owns": o.owns[k], "route_target": o.route[k], "route_addr": o.route_raw[k], "current_range": [o.snap.range.index, o.snap.range.len]}}),
+                );
+                return;
+            }
+        }
+    }
+}
+
+/// a write for a key whose owner is another live-but-unreachable node must fail; it must never be stored on the non-owner
+async fn route_failure_phase(views: &[View], keys: &[(ServiceKey, usize)], rep: &mut Report) -> anyhow::Result<()> {
+    let mut done = 0;
+    for (vi, v) in views.iter().enumerate() {
+        if v.settled_at.is_none() || v.n() - v.dead().len() < 2 || vi % 3 != 0 {
+            continue;
+        }
+        let mut tried = 0;
+        for (key, _h) in keys.iter() {
+            if tried >= 2 {
+                break;
+            }
+            if let NamingRouteAddr::Remote(_, _) = v.nm.route_addr(key).await {
+                tried += 1;
+                let mut ins = Instance::new(format!("10.14.{}.{}", vi % 250, tried), 8000 + tried as u32);
+                ins.namespace_id = key.namespace_id.clone();
+                ins.group_name = key.group_name.clone();
+                ins.service_name = key.service_name.clone();
+                ins.generate_key();
+                let r = tokio::time::timeout(Duration::from_secs(5), v.route.update_instance(ins.clone(), None)).await;
+                rep.evaluations += 1;
+                let answered_ok = matches!(r, Ok(Ok(())));
+                let stored = match v.naming.send(NamingCmd::QueryAllInstanceList(key.clone())).await {
+                    Ok(Ok(NamingResult::InstanceList(l))) => l.iter().any(|x| x.ip == ins.ip && x.port == ins.port),
+                    _ => false,
+                };
+                rep.count("route_failure_probes", 1);
+                if answered_ok || stored {
+                    rep.violation(
+                        format!("write-for-unreachable-owner/{}", if stored { "stored-on-non-owner" } else { "acknowledged" }),
+                        json!({"family": v.family, "node_ids": v.ids, "dead": v.dead(), "local": v.local, "service": key.service_name.as_str(),
+                               "answer_ok": answered_ok, "stored_locally": stored, "timed_out": r.is_err()}),
+                    );
+                    return Ok(());
+                }
+            }
+        }
+        if tried > 0 {
+            done += 1;
+        }
+    }
+    if done > 0 {
+        rep.shape("route-failure/refused-and-not-stored".to_string());
+    }
+    Ok(())
+}
+
+/// membership changes on views that already have a liveness history: remove the largest / the smallest other member, or add one
+async fn membership_phase(
+    views: &mut [View],
+    keys: &[(ServiceKey, usize)],
+    fresh: &BTreeMap<(String, usize, Vec<u64>), Vec<Vec<(bool, u64)>>>,
+    rep: &mut Report,
+) -> anyhow::Result<()> {
+    let mut kinds: Vec<(usize, &'static str)> = vec![];
+    for (i, v) in views.iter_mut().enumerate() {
+        if v.settled_at.is_none() {
+            continue;
+        }
+        let others: Vec<u64> = v.ids.iter().copied().filter(|x| *x != v.local).collect();
+        let kind = ["shrink-largest", "shrink-smallest", "grow"][i % 3];
+        let new_ids: Vec<u64> = match kind {
+            "shrink-largest" if !others.is_empty() => {
+                let x = *others.iter().max().unwrap();
+                v.starved.borrow_mut().remove(&x);
+                v.ids.iter().copied().filter(|y| *y != x).collect()
+            }
+            "shrink-smallest" if !others.is_empty() => {
+                let x = *others.iter().min().unwrap();
+                v.starved.borrow_mut().remove(&x);
+                v.ids.iter().copied().filter(|y| *y != x).collect()
+            }
+            "grow" => {
+                let mut n = v.ids.clone();
+                n.push(v.ids.iter().max().unwrap() + 7);
+                n
+            }
+            _ => continue,
+        };
+        let nodes: Vec<(u64, Arc<String>)> = new_ids.iter().map(|i| (*i, Arc::new(addr_of(*i)))).collect();
+        v.inner.send(NodeManageRequest::UpdateNodes(nodes)).await?.map_err(|e| anyhow::anyhow!("UpdateNodes: {}", e))?;
+        v.history.push(format!("membership {:?} -> {:?} ({})", v.ids, new_ids, kind));
+        v.ids = new_ids;
+        kinds.push((i, kind));
+    }
+    // one liveness tick (3 s) + slack: whatever is recomputed lazily has been recomputed
+    tokio::time::sleep(Duration::from_millis(4000)).await;
+    for (i, kind) in kinds {
+        let v = &views[i];
+        let o = observe(v, keys).await?;
+        if o.snap.invalid != v.dead() {
+            rep.count("membership_views_moved_during_observation", 1);
+            continue;
+        }
+        rep.count("membership_views_observed", 1);
+        let how = format!("after-membership-{}", kind);
+        if judge_local("membership", &how, v, &o, keys, rep) {
+            rep.shape(format!("membership {} {} n={} dead={}", kind, v.family, v.n(), v.dead().len()));
+        }
+        // a prefix of the id family is one of the enumerated fresh views
+        let fam_ids: &[u64] = if v.family == "ids-1..n" { &BASE_IDS } else { &SPARSE_IDS };
+        if v.ids.len() <= MAX_N && v.ids[..] == fam_ids[..v.ids.len()] {
+            compare_with_fresh("membership", &how, v, &o, keys, fresh, rep);
+        }
+    }
+    Ok(())
+}
+
 async fn run_async(args: &Args) -> anyhow::Result<Report> {
     let seed = args.u64("seed", 1);
     let thorough = args.has("recover");
@@ -432,6 +609,39 @@ async fn run_async(args: &Args) -> anyhow::Result<Report> {
     }
     // positive control of the starvation itself: a starved node really was Valid first and became Invalid by the timer
     let fresh = evaluate("fresh", &views, &keys, None, &mut rep).await?;
+    route_failure_phase(&views, &keys, &mut rep).await?;
+
+    if !thorough {
+        // ---- revive-only transition: the smallest dead node of every view comes back (its pings arrive again); after the next
+        // tick the view must be indistinguishable from the fresh view with the same liveness pattern
+        let mut moved: Vec<usize> = vec![];
+        for (i, v) in views.iter_mut().enumerate() {
+            let dead = v.dead();
+            if dead.is_empty() || v.settled_at.is_none() {
+                continue;
+            }
+            let revive = *dead.iter().next().unwrap();
+            v.starved.borrow_mut().remove(&revive);
+            v.inner.do_send(NodeManageRequest::ActiveNode(revive));
+            v.history.push(format!("dead={:?}; revived {}", dead, revive));
+            moved.push(i);
+        }
+        tokio::time::sleep(Duration::from_millis(4000)).await;
+        for i in &moved {
+            let v = &views[*i];
+            let o = observe(v, &keys).await?;
+            if o.snap.invalid != v.dead() {
+                rep.count("revived_views_moved_during_observation", 1);
+                continue;
+            }
+            rep.count("revived_views_observed", 1);
+            if judge_local("revived", "after-recovery-of-a-node", v, &o, &keys, &mut rep) {
+                rep.shape(format!("revived {} n={} dead={:?}", v.family, v.n(), v.dead()));
+            }
+            compare_with_fresh("revived", "after-recovery-of-a-node", v, &o, &keys, &fresh, &mut rep);
+        }
+        membership_phase(&mut views, &keys, &fresh, &mut rep).await?;
+    }
 
     if thorough {
         // ---- phase 2: recoveries. In every view with a dead node: revive the smallest dead node, let the range follow
@@ -451,6 +661,19 @@ async fn run_async(args: &Args) -> anyhow::Result<Report> {
             moved.push(i);
         }
         tokio::time::sleep(Duration::from_millis(4000)).await;
+        for i in &moved {
+            let v = &views[*i];
+            let o = observe(v, &keys).await?;
+            if o.snap.invalid != v.dead() {
+                rep.count("revived_views_moved_during_observation", 1);
+                continue;
+            }
+            rep.count("revived_views_observed", 1);
+            if judge_local("revived", "after-recovery-of-a-node", v, &o, &keys, &mut rep) {
+                rep.shape(format!("revived {} n={} dead={:?}", v.family, v.n(), v.dead()));
+            }
+            compare_with_fresh("revived", "after-recovery-of-a-node", v, &o, &keys, &fresh, &mut rep);
+        }
         for i in &moved {
             let v = &mut views[*i];
             let dead = v.dead();
@@ -533,6 +756,8 @@ async fn run_async(args: &Args) -> anyhow::Result<Report> {
         }
         // full group judgement for the patterns that are complete after the recovery step
         let _ = evaluate("recovered", &sub, &keys, Some(&fresh), &mut rep).await?;
+        membership_phase(&mut sub, &keys, &fresh, &mut rep).await?;
+        membership_phase(&mut rest, &keys, &fresh, &mut rep).await?;
         drop(rest);
     }
     *stop.borrow_mut() = true;
